@@ -587,7 +587,7 @@ def gen_model(rng, n_ops=None, n_subgraphs=1, kinds=None, share=0.0, own_buffers
     return g.bytes(), info
 
 
-def random_inputs(model_bytes, rng, sg_info=None, n=1, scale=None):
+def random_inputs(model_bytes, rng, sg_info=None, n=1, scale=None, spread=False):
     """signature-keyed input data for calibrate()/validate(): {sig_key or None: [ {arg: array} ]}"""
     m = flatbuffer_utils.read_model_from_bytearray(bytearray(model_bytes))
     out = {}
@@ -606,7 +606,7 @@ def random_inputs(model_bytes, rng, sg_info=None, n=1, scale=None):
                 if t.type == TT.INT32:
                     d[tm.name.decode()] = r.randint(0, 2, size=shape).astype(np.int32)
                 else:
-                    d[tm.name.decode()] = (r.randn(*shape) * scale).astype(np.float32)
+                    d[tm.name.decode()] = (r.randn(*shape) * scale * (r.choice([0.3, 1.0, 3.0, 8.0]) if spread else 1.0)).astype(np.float32)
             samples.append(d)
         out[sd.signatureKey.decode()] = samples
     return out
